@@ -16,15 +16,20 @@ KEYS_INTLIKE = ["0", "1", "2", "-1", "01", "00", "+1", " 1", "1 ", "1_0", "１",
 KEYS_ALL = KEYS_BASIC + KEYS_ODD + KEYS_INTLIKE
 
 
-def locations(doc, prefix=()):
-    """All (tokens, value) locations of a document; tokens are str (names) or int (indices)."""
+def locations(doc, prefix=(), _seen=()):
+    """All (tokens, value) locations of a document; tokens are str (names) or int (indices). A container that
+    contains itself (not a JSON value) is cut at the point of re-entry."""
     yield prefix, doc
+    if isinstance(doc, (dict, list)):
+        if id(doc) in _seen:
+            return
+        _seen = _seen + (id(doc),)
     if isinstance(doc, dict):
         for k, v in doc.items():
-            yield from locations(v, prefix + (k,))
+            yield from locations(v, prefix + (k,), _seen)
     elif isinstance(doc, list):
         for i, v in enumerate(doc):
-            yield from locations(v, prefix + (i,))
+            yield from locations(v, prefix + (i,), _seen)
 
 
 def depth(doc):
